@@ -2,7 +2,8 @@
 // prints one canonical observation line per op. Per-world ops are those of world_driver.cpp (DESIGN.md Appendix A):
 // its `Driver` is reused unchanged, one instance per world.
 //
-//   world new [id=<n>|auto] [ctx=own|shared]   -> world <w> id=<id>          (w = creation ordinal, becomes current)
+//   world new [id=<n>|auto] [ctx=own|shared] [threads=<n>]   -> world <w> id=<id>   (w = creation ordinal, becomes current;
+//         threads = workers of the world's PRIVATE dispatcher, default 1; the shared dispatcher has 2)
 //   world drop <w>                             -> dropped <w>
 //   world churn <n> [ctx=own|shared]           -> churn n=<n> ids=<lo>..<hi> bad=<k>
 //         n times: construct an automatically numbered world (it takes an ordinal), create one entity, query it,
@@ -11,6 +12,8 @@
 //   world reserve                              -> reserved id=<id>            (a bare World::nextWorldId())
 //   use <w>                                    -> ok
 //   validin <w> <e> | getin <w> <e> <C>        handle <e> of the CURRENT world presented to world <w>
+//   in <w> <op> <e> [args]                     world_driver op <op> (assign, remove, destroy, destroynow, ...) executed on world
+//                                              <w> with handle <e> of the CURRENT world (a foreign handle there)
 //   dump | dumpall                             dump of the current / of every live world (without the process-global L line)
 //   any other world_driver op                  on the current world
 //
@@ -34,12 +37,11 @@ struct Worlds {
     int cur = -1;
     std::shared_ptr<MemoryManager> shared_mm;
     std::shared_ptr<Dispatcher> shared_disp;
-    uint32_t own_threads = 1;
     std::ostringstream out;
     // measured amount of oracle work (printed as the last line, `stats ...`)
-    size_t n_ops = 0, n_frame = 0, n_foreign = 0, n_own = 0, n_worlds = 0, max_live = 0, max_id = 0;
+    size_t n_ops = 0, n_frame = 0, n_foreign = 0, n_own = 0, n_alien = 0, n_worlds = 0, max_live = 0, max_id = 0;
 
-    WorldContext makeContext(bool shared, std::shared_ptr<Dispatcher>& disp) {
+    WorldContext makeContext(bool shared, std::shared_ptr<Dispatcher>& disp, uint32_t threads) {
         WorldContext ctx;
         if (shared) {
             if (!shared_mm) shared_mm = std::make_shared<MemoryManager>();
@@ -48,7 +50,7 @@ struct Worlds {
             ctx.dispatcher = shared_disp;
         } else {
             ctx.memory_manager = std::make_shared<MemoryManager>();
-            ctx.dispatcher = std::make_shared<Dispatcher>(own_threads);
+            ctx.dispatcher = std::make_shared<Dispatcher>(threads);
         }
         disp = ctx.dispatcher;
         return ctx;
@@ -88,6 +90,7 @@ struct Worlds {
             for (auto e : arch.entities()) o << e.value << ",";
             o << "\n";
         }
+#ifndef VERIF_NO_INTERNALS
         const auto& ents = Access::entities(m);
         o << "T";
         for (size_t i = 0; i < ents.size(); ++i) {
@@ -97,6 +100,7 @@ struct Worlds {
         o << " next=" << Access::nextSlot(m) << " empty=" << Access::emptySlots(m) << " lock=" << Access::lockCounter(m)
           << " marked=" << Access::marked(m).size() << " buf=";
         for (size_t i = 0; i < Access::bufferCount(m); ++i) o << Access::bufferLen(m, i) << ",";
+#endif
         o << " wid=" << d.world->id().toInt() << " ver=" << d.world->version().toInt() << "\n";
         return o.str();
     }
@@ -125,6 +129,27 @@ struct Worlds {
             }
             ws[k].last = now;
         }
+        for (size_t k : live) {
+            // every handle a world keeps in its archetypes (and hands out when iterated) is its own and valid in it
+            auto& m = ws[k].d->world->entities();
+            for (uint32_t i = 0; i < m.getArchetypesCount(); ++i) {
+                for (auto e : m.getArchetype(ArchetypeIndex::make(i)).entities()) {
+                    ++n_alien;
+                    if (e.worldId().toInt() != ws[k].id || !m.isEntityValid(e)) {
+                        out << "ORACLE alien-handle: archetype " << i << " of world " << k << " (id " << ws[k].id << ") holds handle id="
+                            << e.id().toInt() << " ver=" << e.version().toInt() << " w=" << e.worldId().toInt()
+                            << " which is " << (m.isEntityValid(e) ? "valid" : "invalid") << " in it\n";
+                    }
+                }
+            }
+#ifndef VERIF_NO_INTERNALS
+            // a locked world has a command buffer for the calling thread and for every worker of ITS dispatcher
+            if (m.isLocked() && Access::bufferCount(m) < ws[k].d->dispatcher->threadCount() + 1u) {
+                out << "ORACLE buffers: locked world " << k << " has " << Access::bufferCount(m) << " command buffers for a dispatcher of "
+                    << ws[k].d->dispatcher->threadCount() << " workers\n";
+            }
+#endif
+        }
         for (size_t a : live) {
             for (size_t b : live) {
                 if (a == b || ws[a].id == ws[b].id) continue;
@@ -140,12 +165,13 @@ struct Worlds {
         }
     }
 
-    std::string create(bool automatic, uint32_t id, bool shared) {
+    std::string create(bool automatic, uint32_t id, bool shared, uint32_t threads = 1) {
         WorldSlot s;
         s.d = std::make_unique<Driver>();
         std::shared_ptr<Dispatcher> disp;
-        WorldContext ctx = makeContext(shared, disp);
+        WorldContext ctx = makeContext(shared, disp, threads);
         s.d->dispatcher = disp;
+        s.d->threads = disp->threadCount();
         s.d->world = automatic ? std::make_unique<World>(ctx) : std::make_unique<World>(ctx, WorldId::make(id));
         s.alive = true;
         s.id = s.d->world->id().toInt();
@@ -181,12 +207,13 @@ struct Worlds {
         g_callbacks.clear();
     }
 
-    static bool parseCtx(const std::vector<std::string>& w, size_t from, bool& shared, bool& automatic, uint32_t& id) {
+    static bool parseCtx(const std::vector<std::string>& w, size_t from, bool& shared, bool& automatic, uint32_t& id, uint32_t& threads) {
         for (size_t i = from; i < w.size(); ++i) {
             if (w[i] == "auto") automatic = true;
             else if (w[i].rfind("id=", 0) == 0) { automatic = false; id = static_cast<uint32_t>(std::stoul(w[i].substr(3))); }
             else if (w[i] == "ctx=own") shared = false;
             else if (w[i] == "ctx=shared") shared = true;
+            else if (w[i].rfind("threads=", 0) == 0) threads = static_cast<uint32_t>(std::stoul(w[i].substr(8)));
             else return false;
         }
         return true;
@@ -212,9 +239,9 @@ struct Worlds {
         int operated = -1;
         if (w[0] == "world" && w.size() >= 2) {
             if (w[1] == "new") {
-                bool shared = false, automatic = true; uint32_t id = 0;
-                if (!parseCtx(w, 2, shared, automatic, id)) { out << "bad-op\n"; return; }
-                out << create(automatic, id, shared) << "\n";
+                bool shared = false, automatic = true; uint32_t id = 0, threads = 1;
+                if (!parseCtx(w, 2, shared, automatic, id, threads) || threads < 1 || threads > 8) { out << "bad-op\n"; return; }
+                out << create(automatic, id, shared, threads) << "\n";
                 operated = cur;
             } else if (w[1] == "drop" && w.size() == 3) {
                 size_t k;
@@ -229,8 +256,8 @@ struct Worlds {
                 }
                 out << "\n";
             } else if (w[1] == "churn" && w.size() >= 3) {
-                bool shared = true, automatic = true; uint32_t id = 0;
-                if (!parseCtx(w, 3, shared, automatic, id) || !automatic) { out << "bad-op\n"; return; }
+                bool shared = true, automatic = true; uint32_t id = 0, threads = 1;
+                if (!parseCtx(w, 3, shared, automatic, id, threads) || !automatic) { out << "bad-op\n"; return; }
                 size_t n = std::stoul(w[2]);
                 uint32_t lo = 0xffffffffu, hi = 0; size_t bad = 0;
                 int keep = cur;
@@ -288,7 +315,20 @@ struct Worlds {
             oracle(-1);            // a query changes no world, the queried one included
             return;
         }
-        if (w[0] == "teardown" || w[0] == "worldid" || w[0] == "defaultctx" || w[0] == "threads" || w[0] == "storagecap") {
+        if (w[0] == "in" && w.size() >= 4) {
+            size_t k; Entity e;
+            if (!liveIndex(w[1], k) || !d.parseEntity(w[3], e)) { out << "bad-op\n"; return; }
+            char buf[40]; std::snprintf(buf, sizeof buf, "raw:%llx", static_cast<unsigned long long>(e.value));
+            std::string l2 = w[2] + " " + buf;
+            for (size_t i = 4; i < w.size(); ++i) l2 += " " + w[i];
+            Driver& t = *ws[k].d;
+            t.line(l2);
+            out << t.out.str();
+            t.out.str("");
+            oracle(static_cast<int>(k));
+            return;
+        }
+        if (w[0] == "events" || w[0] == "parjob" || w[0] == "teardown" || w[0] == "worldid" || w[0] == "defaultctx" || w[0] == "threads" || w[0] == "storagecap") {
             out << "bad-op\n"; return;
         }
         const size_t before = d.issued.size();
@@ -313,7 +353,7 @@ struct Worlds {
 
 int main() {
     for (const char* c = kLetters; *c; ++c) compId(*c);
-    sharedId('S'); sharedId('T');
+    sharedId('S'); sharedId('T'); sharedId('U');
     Worlds W;
     std::string l;
     while (std::getline(std::cin, l)) {
@@ -325,6 +365,6 @@ int main() {
     }
     while (!W.live.empty()) W.dropSlot(W.live.back());
     std::cout << "stats ops=" << W.n_ops << " worlds=" << W.n_worlds << " max_live=" << W.max_live << " max_id=" << W.max_id
-              << " frame_checks=" << W.n_frame << " foreign_checks=" << W.n_foreign << " own_checks=" << W.n_own << "\n";
+              << " frame_checks=" << W.n_frame << " foreign_checks=" << W.n_foreign << " own_checks=" << W.n_own << " archetype_handle_checks=" << W.n_alien << "\n";
     return 0;
 }
